@@ -179,10 +179,16 @@ def check(ctx):
             view = flat(ctx, funcs[nm], 3)
             if _write_opens(view):
                 entries.append((nm, funcs[nm], view))
+    _positional_pairing(ctx, mn)
     if not entries:
         raise AnchorMissing(f"{CL}: `main` calls no function of the module that (itself or through its helpers) opens a file for writing: no write-mode open")
     for ename, efn, pov in entries:
-        _write_back(ctx, ename, efn, pov)
+        try:
+            _write_back(ctx, ename, efn, pov)
+        except AnalysisError as e_:
+            if not ctx.violations:
+                raise
+            ctx.note(f"R3 write-back analysis of {ename} not completed next to reported violations: {e_}")
     from .c19 import _enclosing_try_with_handler
 
     calls = [c for c in calls_in(mn) if call_name(c) in [e[0] for e in entries]]
@@ -190,7 +196,6 @@ def check(ctx):
     ctx.ob("R3", f"{CL}:main", "a FormatError from one file is reported and counted, never propagated into a write", ok, key="main|format-error-handler")
     _spacing(ctx, co)
     _state_from_tokens_only(ctx)
-    _spacing(ctx, co)
     # ---- R5: encode(E) ... tokenize(bytes) re-detects the encoding from a PEP 263 cookie; the text was decoded already
     it = co.func("_Formatter._iter_tokens")
     encs = [c for c in calls_in(it) if last_attr(c) == "encode"]
@@ -494,6 +499,38 @@ def _state_from_tokens_only(ctx):
                         bad = []  # a piece of the source kept for verbatim re-emission is not a decision taken from it
                     n += 1
                     ctx.ob("R6", f"{CO}:_Formatter.{nm}", f"`{short(a, 60)}`: state kept across tokens is not computed from raw source rows", not bad, key=f"{nm}|state-from-raw-rows|{t.attr}", where=loc(a), detail=f"derived from {bad}" if bad else None)
+
+
+def _positional_pairing(ctx, mn):
+    """A text is written to the path it was formatted from.  Where `main` pairs paths with results *by position*
+    (`zip(paths, results)`), the list of results must have one slot per path: it is filled by exactly one append on
+    every way through the loop that builds it - the handled-failure way included - otherwise every path after a
+    failing one is paired with its successor's text."""
+    defs = df.all_defs(mn)
+    n = 0
+    for lp in [x for x in walk_local(mn) if isinstance(x, ast.For) and isinstance(x.iter, ast.Call) and call_name(x.iter) == "zip"]:
+        lists = [a.id for a in lp.iter.args if isinstance(a, ast.Name) and any(isinstance(d.value, (ast.List, ast.Call)) for d in defs.get(a.id, []) if d.value is not None)]
+        for nm in lists:
+            fillers = [f for f in walk_local(mn) if isinstance(f, ast.For) and f is not lp and any(isinstance(c.func, ast.Attribute) and c.func.attr == "append" and unparse(c.func.value) == nm for b_ in f.body for c in calls_in(b_))]
+            for f in fillers:
+                n += 1
+                bcfg = CFG(f.body)
+                apps = [nd for nd in bcfg.nodes if nd.kind == "stmt" and any(isinstance(c.func, ast.Attribute) and c.func.attr == "append" and unparse(c.func.value) == nm for c in calls_in(nd.ast))]
+                # every way through one iteration that is not an escaping exception passes an append that completed:
+                # the exception edge out of the appending statement itself leads to a handler - without a slot
+                ok, path = bcfg.must_pass(bcfg.entry, lambda m: m in apps, exits=("exit",), skip_edge=lambda a_, b_, l_: a_ in apps and l_ != "exc" and False)
+                if ok:
+                    # the append statement may itself raise (its argument is the failing call): is there a handler that swallows it?
+                    for ap in apps:
+                        for t in [a for a in ancestors(ap.ast) if isinstance(a, ast.Try) and lexically_inside(a, f)]:
+                            if any(ap.ast is b_ or lexically_inside(ap.ast, b_) for b_ in t.body):
+                                for h in t.handlers:
+                                    hcfg_ok = any(isinstance(x, (ast.Raise, ast.Return)) for b_ in h.body for x in ast.walk(b_)) or any(isinstance(c.func, ast.Attribute) and c.func.attr == "append" and unparse(c.func.value) == nm for b_ in h.body for c in calls_in(b_))
+                                    if not hcfg_ok:
+                                        ok = False
+                ctx.ob("R3", f"{CL}:main", f"`{short(lp.iter, 40)}` pairs by position: `{nm}` gets exactly one slot per input on every way through the loop that fills it (a handled failure included)", ok, key=f"main|positional-pairing-skips-failures|{nm}", where=loc(f), detail=None if ok else f"a failure handled inside the filling loop leaves no slot in `{nm}`: every later path is paired with the next input's text")
+    if n == 0:
+        ctx.ob("R3", f"{CL}:main", "paths and formatted texts are not paired by position (each text is produced and used in one iteration)", True, key="main|no-positional-pairing")
 
 META = {
     "technique": "static analysis: return-shape/provenance check of the token renderer, operation whitelist over the joined text, CFG dominance and guard facts before the write-back",
